@@ -16,6 +16,9 @@ package main
 //     reads of the header peek (facts_locks.go, C13, does not see `io.ReadFull(c.Conn, ..)`),
 //     and the programs of the calls that get a parked goroutine back: Close and the deadline
 //     setters, declared or promoted from the embedded raw connection;
+//   - the program of listener.Accept in the same event alphabet (plus 20 = the inner listener's Accept): whether
+//     Accept itself touches the accepted connection (a transport read there parks the ONE accept loop of the
+//     server on that peer, in front of every other peer in the accept queue);
 //   - the shape of ProtocolDetectConn.Read is *not* abstracted into facts (the model is a
 //     transcription, tied by correspondence); only its AST hash is recorded.
 
@@ -201,6 +204,7 @@ func emitPA(e *emitter, p *pkg) {
 	_ = strconv.Itoa
 	emitPASwitchState(e, p)
 	emitPASwitchLocks(e, p)
+	emitPAListener(e, p)
 }
 
 // ---------------------------------------------------------------------------
@@ -462,6 +466,98 @@ type paWalker struct {
 	locks  []string
 	lockIx map[string]int
 	ftypes map[string]map[string]string // struct -> field -> type text
+	// env: names bound in the function being walked (receiver, parameters, locals assigned from a constructor of
+	// the package or from the inner listener's Accept) -> a struct of the package, "net.Conn" (the raw transport)
+	// or "net.Listener" (the inner listener).  One map per function on the walk stack.
+	env []map[string]string
+}
+
+func (w *paWalker) varType(name string) string {
+	if n := len(w.env); n > 0 {
+		return w.env[n-1][name]
+	}
+	return ""
+}
+
+// declType: what a declared type text binds a name to
+func (w *paWalker) declType(t string) string {
+	switch t {
+	case "net.Conn", "net.Listener":
+		return t
+	}
+	t = strings.TrimPrefix(t, "*")
+	if _, ok := w.p.types[t]; ok {
+		return t
+	}
+	return ""
+}
+
+// structType: declType restricted to structs of the package (a net.Conn RESULT of a call is not known to be the raw
+// transport: conn() returns the selected stack)
+func (w *paWalker) structType(t string) string {
+	if t = w.declType(t); t == "net.Conn" || t == "net.Listener" {
+		return ""
+	}
+	return t
+}
+
+// exprType: the binding an expression gives to the local it is assigned to
+func (w *paWalker) exprType(x ast.Expr, self string) string {
+	switch t := x.(type) {
+	case *ast.ParenExpr:
+		return w.exprType(t.X, self)
+	case *ast.UnaryExpr:
+		if t.Op == token.AND {
+			if cl, ok := t.X.(*ast.CompositeLit); ok {
+				return w.declType(w.p.src(cl.Type))
+			}
+		}
+	case *ast.CompositeLit:
+		return w.declType(w.p.src(t.Type))
+	case *ast.CallExpr:
+		if id, ok := t.Fun.(*ast.Ident); ok {
+			if fd := w.p.funcs[id.Name]; fd != nil && fd.Type.Results != nil && len(fd.Type.Results.List) >= 1 {
+				return w.structType(w.p.src(fd.Type.Results.List[0].Type))
+			}
+			if id.Name == "new" && len(t.Args) == 1 {
+				return w.declType(w.p.src(t.Args[0]))
+			}
+		}
+		if se, ok := t.Fun.(*ast.SelectorExpr); ok {
+			if se.Sel.Name == "Accept" && w.isListener(se.X, self) {
+				return "net.Conn"
+			}
+			if o := w.recvType(se.X, self); o != "" {
+				if fd := w.p.funcs[o+"."+se.Sel.Name]; fd != nil && fd.Type.Results != nil && len(fd.Type.Results.List) >= 1 {
+					return w.structType(w.p.src(fd.Type.Results.List[0].Type))
+				}
+			}
+		}
+	case *ast.Ident, *ast.SelectorExpr:
+		if w.isRaw(x, self) {
+			return "net.Conn"
+		}
+		if w.isListener(x, self) {
+			return "net.Listener"
+		}
+		return w.recvType(x, self)
+	}
+	return ""
+}
+
+// isListener: the expression is the inner listener (`l.Listener`, a name bound to it)
+func (w *paWalker) isListener(x ast.Expr, self string) bool {
+	switch t := x.(type) {
+	case *ast.Ident:
+		return w.varType(t.Name) == "net.Listener"
+	case *ast.SelectorExpr:
+		if o := w.recvType(t.X, self); o != "" && w.ftypes[o][t.Sel.Name] == "net.Listener" {
+			return true
+		}
+	case *ast.ParenExpr:
+		return w.isListener(t.X, self)
+	}
+	return false
 }
 
 func (w *paWalker) lockOf(name string) int {
@@ -477,6 +573,12 @@ func (w *paWalker) lockOf(name string) int {
 func (w *paWalker) recvType(x ast.Expr, self string) string {
 	switch t := x.(type) {
 	case *ast.Ident:
+		if v := w.varType(t.Name); v != "" {
+			if _, ok := w.p.types[v]; ok {
+				return v
+			}
+			return ""
+		}
 		if t.Name == "c" {
 			return self
 		}
@@ -495,6 +597,9 @@ func (w *paWalker) recvType(x ast.Expr, self string) string {
 
 // isRaw: the expression is the raw transport (`c.Conn` of either struct, `c.p.Conn`, `c.Raw()`)
 func (w *paWalker) isRaw(x ast.Expr, self string) bool {
+	if id, ok := x.(*ast.Ident); ok && w.varType(id.Name) == "net.Conn" {
+		return true
+	}
 	if se, ok := x.(*ast.SelectorExpr); ok && se.Sel.Name == "Conn" {
 		if o := w.recvType(se.X, self); o != "" && w.ftypes[o]["Conn"] == "net.Conn" {
 			return true
@@ -508,6 +613,8 @@ func (w *paWalker) isRaw(x ast.Expr, self string) bool {
 	return false
 }
 
+const paEvInnerAccept = 20 // the inner listener's Accept (parks until a peer connects)
+
 var paConnMethod = map[string]int{"Read": 9, "Write": 2, "Close": 8, "SetDeadline": 13, "SetReadDeadline": 13, "SetWriteDeadline": 13}
 
 func (w *paWalker) walkFunc(key string, stack []string, out *[][2]int) {
@@ -520,7 +627,30 @@ func (w *paWalker) walkFunc(key string, stack []string, out *[][2]int) {
 			return
 		}
 	}
-	self := key[:strings.Index(key, ".")]
+	self := ""
+	if i := strings.Index(key, "."); i >= 0 {
+		self = key[:i]
+	}
+	env := map[string]string{}
+	if fd.Recv != nil && len(fd.Recv.List) == 1 && len(fd.Recv.List[0].Names) == 1 && self != "" {
+		env[fd.Recv.List[0].Names[0].Name] = self
+	}
+	if fd.Type.Params != nil {
+		for _, f := range fd.Type.Params.List {
+			t := w.declType(w.p.src(f.Type))
+			if self != "" {
+				// a net.Conn handed to a METHOD may be the selected stack; only constructors receive the raw transport
+				t = w.structType(w.p.src(f.Type))
+			}
+			if t != "" {
+				for _, nm := range f.Names {
+					env[nm.Name] = t
+				}
+			}
+		}
+	}
+	w.env = append(w.env, env)
+	defer func() { w.env = w.env[:len(w.env)-1] }()
 	var deferred [][][2]int
 	w.walkNode(fd.Body, self, append(stack, key), out, &deferred)
 	for i := len(deferred) - 1; i >= 0; i-- {
@@ -550,6 +680,36 @@ func (w *paWalker) walkNode(n ast.Node, self string, stack []string, out *[][2]i
 		return
 	case *ast.CallExpr:
 		w.walkCall(s, self, stack, out, deferred)
+		return
+	case *ast.AssignStmt:
+		for _, r := range s.Rhs {
+			w.walkNode(r, self, stack, out, deferred)
+		}
+		for _, l := range s.Lhs {
+			if _, isId := l.(*ast.Ident); !isId {
+				w.walkNode(l, self, stack, out, deferred)
+			}
+		}
+		if n := len(w.env); n > 0 && len(s.Rhs) >= 1 {
+			// `x := f(..)`, `x, err := f(..)`, `x, y = a, b`
+			for i, l := range s.Lhs {
+				id, ok := l.(*ast.Ident)
+				if !ok || id.Name == "_" {
+					continue
+				}
+				var t string
+				if len(s.Rhs) == len(s.Lhs) {
+					t = w.exprType(s.Rhs[i], self)
+				} else if i == 0 {
+					t = w.exprType(s.Rhs[0], self)
+				}
+				if t != "" {
+					w.env[n-1][id.Name] = t
+				} else if s.Tok == token.DEFINE {
+					delete(w.env[n-1], id.Name)
+				}
+			}
+		}
 		return
 	}
 	// generic: children in source order
@@ -608,6 +768,10 @@ func (w *paWalker) walkCall(ce *ast.CallExpr, self string, stack []string, out *
 				}
 			}
 		}
+	}
+	if m == "Accept" && w.isListener(se.X, self) {
+		*out = append(*out, [2]int{paEvInnerAccept, 0})
+		return
 	}
 	if w.isRaw(se.X, self) {
 		if k, ok := paConnMethod[m]; ok {
@@ -719,4 +883,35 @@ func emitPASwitchLocks(e *emitter, p *pkg) {
 	}
 	e.comment("the calls that get a parked goroutine back (declared, or promoted from the embedded raw connection)")
 	e.raw("swUnblockers", "List (String × List (Nat × Nat))", "[\n  "+strings.Join(ubLean, ",\n  ")+"]", ub)
+}
+
+// ---------------------------------------------------------------------------
+// the listener: what Accept does with the connection before the application gets it
+
+func emitPAListener(e *emitter, p *pkg) {
+	e.comment("pa/pa.go: program of listener.Accept — 20 inner-listener Accept, then the events (same alphabet as swProgs) it performs on the accepted connection before returning it; calls into the package are inlined (constructor, methods of the new object), `go` statements are not part of it")
+	w := &paWalker{p: p, lockIx: map[string]int{}, ftypes: map[string]map[string]string{}}
+	for name := range p.types {
+		_, ft := paStructFields(p, name)
+		w.ftypes[name] = ft
+	}
+	w.lockOf(paSwitch + ".lock")
+	var evs [][2]int
+	if fd := p.funcs["listener.Accept"]; fd != nil && fd.Body != nil {
+		w.walkFunc("listener.Accept", nil, &evs)
+	} else {
+		e.missing = append(e.missing, e.key("acceptProg"))
+	}
+	e.raw("acceptProg", "List (Nat × Nat)", paLeanProg(evs), evs)
+	// the listener embeds the inner listener and Accept hands out the object built by the constructor on the raw connection
+	wraps := false
+	if fd := p.funcs["listener.Accept"]; fd != nil && fd.Body != nil {
+		ast.Inspect(fd.Body, func(n ast.Node) bool {
+			if ce, ok := n.(*ast.CallExpr); ok && p.src(ce.Fun) == "New"+paSwitch && len(ce.Args) == 2 {
+				wraps = true
+			}
+			return true
+		})
+	}
+	e.boolean("acceptWrapsRaw", wraps && w.ftypes["listener"]["Listener"] == "net.Listener")
 }
